@@ -97,9 +97,8 @@ func verifC08Rename(tier int) {
 		zzverif.Reach("C08.rename.none")
 		return
 	}
-	if c08Covers(w.doc(), *pr, "prepareRename", c08KAcct, c08KComm, c08KPayee) >= 0 {
-		c08AtCursor(*pr, pos, "prepareRename")
-	}
+	c08Covers(w.doc(), *pr, "prepareRename", c08KAcct, c08KComm, c08KPayee)
+	c08AtCursor(*pr, pos, "prepareRename")
 	we, err := w.s.Rename(ctx, &protocol.RenameParams{TextDocumentPositionParams: w.tdp(pos), NewName: "new:name"})
 	zzverif.Assert(err == nil, "rename: error")
 	if we == nil { // whether a rename must be offered here is C09's subject
